@@ -252,6 +252,43 @@ theorem runLog_increasing (f : K) (hf : 1 ≤ f) (ts : List K) (st : K × K) (h 
     have := (logNext_gap f st t hpos).1
     linarith
 
+/-! ### a logarithmic schedule that is used again (`logFinal`, `logReinit` - the code that exists keeps the grown period) -/
+
+theorem logFinal_eq_foldl (f : K) (st : K × K) (ts : List K) : logFinal f st ts = ts.foldl (logNext f) st := by
+  induction ts generalizing st with
+  | nil => rfl
+  | cons t ts ih => simp only [logFinal, List.foldl_cons]; exact ih _
+
+/-- the period inherited by a second run: `dt_initial/f * f^n` after `n` calls of `next` in the first run -/
+theorem logReinit_period (f : K) (tStart : Option K) (st : K × K) (warm : List K) (t : K) :
+    (logReinit tStart (logFinal f st warm) t).1 = st.1 * f ^ warm.length := by
+  simp only [logReinit, logFinal_eq_foldl, runLog_period]
+
+/-- **C09, re-used logarithmic schedule**: after an earlier run with the queries `warm`, `initialize(t)` and the
+queries `ts` of a second run give answers `≥` the queries, strictly increasing, with gap `j` at least
+`dt0 * f^(n+j)`, `n = warm.length` - the defining set of the property with the period the object has then -/
+theorem logarithmic_schedule_reused (dt0 f : K) (hd : 0 < dt0) (hf : 1 ≤ f) (tStart : Option K) (tWarm tInit : K)
+    (warm ts : List K) :
+    let st := logReinit tStart (logFinal f (dt0 / f, constInit tStart tWarm) warm) tInit
+    tInit ≤ st.2 ∧ List.Forall₂ (fun t a => t ≤ a) ts (runLog f st ts) ∧
+      (st.2 :: runLog f st ts).IsChain (· < ·) ∧
+      ∀ (j : Nat) (a b : K), (st.2 :: runLog f st ts)[j]? = some a → (runLog f st ts)[j]? = some b →
+        a + dt0 * f ^ (warm.length + j) ≤ b := by
+  intro st
+  have hf0 : 0 < f := lt_of_lt_of_le one_pos hf
+  have hp : st.1 = dt0 / f * f ^ warm.length := logReinit_period f tStart _ warm tInit
+  have hpos : 0 < st.1 := by rw [hp]; exact mul_pos (div_pos hd hf0) (pow_pos hf0 _)
+  refine ⟨constInit_ge tStart tInit, (runLog_spec f hf ts st hpos).1, runLog_increasing f hf ts st hpos, ?_⟩
+  intro j a b ha hb
+  have := (runLog_spec f hf ts st hpos).2 j a b ha hb
+  have e : st.1 * f ^ (j + 1) = dt0 * f ^ (warm.length + j) := by
+    rw [hp, pow_add, pow_succ]; field_simp
+    try ring
+  rw [e] at this; exact this
+
+example : runLog (2 : Rat) (logReinit none (logFinal 2 (1 / 2, constInit none 0) [0, 3]) 10) [10, 30] = [14, 30] := by
+  decide +kernel
+
 /-! ### fixed interrupts -/
 
 /-- one call seen on the list of entries not yet consumed: answer and new remainder -/
